@@ -18,6 +18,7 @@ MUTANTS += [
     ('pulse counter read after the first creations', [(G, "        self.end_segs [1] = parent.pulses.pulse_idx + npulse\n", "        pass\n"), (G, "        # Connection to other geo object(s) at end 2\n", "        self.end_segs [1] = parent.pulses.pulse_idx + npulse\n")], []),
     ('ground test by exact zero', [('mininec.Geobj.compute_ground', "self.is_ground = (abs (self.p1 [-1]) < eps, abs (self.p2 [-1]) < eps)", "self.is_ground = (self.p1 [-1] == 0, self.p2 [-1] == 0)")], ['ground-test']),
     ('ground test of end 2 on end 1', [('mininec.Geobj.compute_ground', "self.is_ground = (abs (self.p1 [-1]) < eps, abs (self.p2 [-1]) < eps)", "self.is_ground = (abs (self.p1 [-1]) < eps, abs (self.p1 [-1]) < eps)")], ['ground-test']),
+    ('second junction of a pair not registered', [('mininec.Geobj._add_conn', "        n2, other = parent.end_dict [ep_tuple]\n", "        n2, other = parent.end_dict [ep_tuple]\n        if other is not self and other in self.connections ():\n            return\n")], ['add-conn']),
 ]
 REFACTORS = [
     ('dead increment after the last creation dropped', [(G, "                p._c_per [0] = 0\n            p.n = pc\n            pc += 1\n            self.pulses.append (p)", "                p._c_per [0] = 0\n            p.n = pc\n            self.pulses.append (p)")]),
